@@ -1,5 +1,6 @@
 import Proofs.C20
 import Proofs.TieBuild
+import Proofs.TieLoopTail
 #print axioms PV.Proofs.C20.build_inner_pos
 #print axioms PV.Proofs.C20.build_ok
 #print axioms PV.Proofs.C20.work_exact
@@ -13,3 +14,6 @@ import Proofs.TieBuild
 #print axioms PV.Proofs.Tie.build_inner_tie
 #print axioms PV.Proofs.Tie.build_kt_ratio_tie
 #print axioms PV.Proofs.Tie.build_loops_tie
+#print axioms PV.Proofs.Tie.declared_translated_looptail
+#print axioms PV.Proofs.Tie.loop_tail_tie
+#print axioms PV.Proofs.Tie.loop_tail_frame
